@@ -636,6 +636,38 @@ def _inplace_after_queries(opname):
 
 for _nm in ('iadd', 'isub', 'imul', 'itruediv', 'ifloordiv', 'imod'):
     BINARY[_nm + '_q'] = _inplace_after_queries(_nm)
+
+
+def _derived_then_mutated(derive):
+    """w = derive(z); then every element of z is assigned in turn, first made visible, then hidden, then the whole
+    object is combined in place with an operand masked the other way round; w is what is observed.  w may share z's
+    arrays (number fast paths, clone, views), so a mutator that writes into a shared mask array makes w show numbers
+    that were computed from z's hidden ones (seeded change C03-G)"""
+    def f(Pm, x):
+        z = x.copy()
+        w = derive(Pm, z)
+        if w is z:
+            return 'same object'
+        if z.shape:
+            for k in range(z.shape[0]):
+                z[k] = z[k].remask(False)
+            for k in range(z.shape[0]):
+                z[k] = z[k].remask(True)
+            z[...] = x.copy().remask(False)
+            z[::2] = z[::2].remask(True)
+        if not z.is_bool():
+            one = 1 if z.is_int() else 1.
+            z *= Pm.Scalar(np.full(z.shape, one) if z.shape else one, np.logical_not(np.broadcast_to(x.mask, z.shape)))
+        return w
+    return f
+
+
+for _nm, _fn in (('neg', lambda Pm, z: -z), ('addnum', lambda Pm, z: z + 10), ('mulnum', lambda Pm, z: z * 2),
+                 ('abs', lambda Pm, z: abs(z)), ('clone', lambda Pm, z: z.clone()), ('wod', lambda Pm, z: z.wod),
+                 ('view', lambda Pm, z: z[...]), ('flip', lambda Pm, z: z[::-1]), ('eq', lambda Pm, z: z == z),
+                 ('reshape', lambda Pm, z: z.reshape(z.shape + (1,))), ('asfloat', lambda Pm, z: z.as_float()),
+                 ('remask_or', lambda Pm, z: z.remask_or(False)), ('shrink', lambda Pm, z: z.shrink(True))):
+    UNARY['sib_' + _nm] = _derived_then_mutated(_fn)
 SMALL_UNARY = ['neg', 'sqrt', 'reciprocal', 'sum', 'mean', 'max', 'argmax', 'argmin', 'median', 'sort', 'any', 'all',
                'shrink_rt', 'pickle', 'as_int', 'mw_eq0', 'clip01', 'str', 'int', 'min']
 SMALL_BINARY = ['add', 'mul', 'truediv', 'floordiv', 'eq', 'lt', 'tvl_eq', 'maximum', 'minimum', 'stack', 'getitem', 'booleq',
